@@ -268,6 +268,8 @@ def LSHFacts_computeBandKeys : List String := [
   "assign: r = 4",
   "if: b <= 0",
   "assign: b = 32",
+  "if: total > 0 && r > total",
+  "assign: r = total",
   "assign: maxBands := total / r",
   "if: b > maxBands",
   "assign: b = maxBands",
